@@ -15,10 +15,10 @@ ASSUMPTIONS = [
 PORTS = [6445, 20086, 6445, 20086, 1, 65535]
 
 
-def make_host(ctx, m, rng, h, kind, ver=None):
+def make_host(ctx, m, rng, h, kind, ver=None, did=None):
     """-> (kind, expected canonical device or None, list of datagram payloads this host may send)"""
     if kind == "good":
-        ver, did, port = ver or rng.choice([2, 3]), rng.randrange(1 << 48), rng.choice([6444, 1, 65535, rng.randrange(1, 65536)])
+        ver, did, port = ver or rng.choice([2, 3]), rng.randrange(1 << 48) if did is None else did, rng.choice([6444, 1, 65535, rng.randrange(1, 65536)])
         ty = rng.choice([0xAC, 0xAC, rng.randrange(256)])
         sn, name = S.good_sn(rng), S.good_name(m, rng, ty)
         d = S.ref_reply(m, rng, ver, did, port, sn, name)
@@ -70,6 +70,19 @@ def run(ctx, rep):
         rng.shuffle(dg)
         times = sorted(rng.choice([rng.randrange(0, 4999), rng.randrange(0, 50)]) for _ in dg)
         scenarios.append((hosts, [(t, *d) for t, d in zip(times, dg)]))
+    # several addresses answering with the SAME device id (cloned / factory-default ids, one appliance on two interfaces): each
+    # responding address is still one reported device
+    for _ in range(ctx.n(30, 300)):
+        n = rng.randrange(2, 5)
+        did = rng.randrange(1 << 48)
+        hosts, dg = {}, []
+        for i in range(n):
+            same = i < 2 or rng.random() < 0.5
+            hosts[10 + i] = make_host(ctx, m, rng, 10 + i, "good", did=did if same else None)
+            for j in range(rng.randrange(1, 3)):
+                dg.append((10 + i, rng.choice(PORTS), hosts[10 + i][2][j]))
+        rng.shuffle(dg)
+        scenarios.append((hosts, [(t, *d) for t, d in zip(sorted(rng.randrange(0, 4000) for _ in dg), dg)]))
     # mixed hosts (first datagram decides), late datagrams, truncations: correspondence only
     corr_only = []
     for _ in range(ctx.n(120, 2500)):
